@@ -29,7 +29,13 @@ where
     F: Fn(f64) -> f64,
 {
     let multiplier = 10_f64.powf(precision as f64);
-    fun(num * multiplier) / multiplier
+    let scaled = num * multiplier;
+    if !scaled.is_finite() {
+        // The multiplier or the scaled number overflows `f64`: the number has no digits at this
+        // precision, so rounding leaves it unchanged (instead of producing NaN or infinity).
+        return num;
+    }
+    fun(scaled) / multiplier
 }
 
 #[derive(Debug, Clone)]
